@@ -112,6 +112,23 @@ func init() {
 	symAPI["DeepEqual"] = func(fr *frame, args []value) value {
 		return fr.i.deepEqual(args[0], args[1])
 	}
+	symAPI["And"] = func(fr *frame, args []value) value {
+		acc := fr.i.tt.Bool(true)
+		for _, a := range args[0].([]value) {
+			acc = fr.i.tt.And(acc, fr.i.term(a))
+		}
+		return fr.i.mkBool(acc)
+	}
+	symAPI["Or"] = func(fr *frame, args []value) value {
+		acc := fr.i.tt.Bool(false)
+		for _, a := range args[0].([]value) {
+			acc = fr.i.tt.Or(acc, fr.i.term(a))
+		}
+		return fr.i.mkBool(acc)
+	}
+	symAPI["Implies"] = func(fr *frame, args []value) value {
+		return fr.i.mkBool(fr.i.tt.Or(fr.i.tt.Not(fr.i.term(args[0])), fr.i.term(args[1])))
+	}
 	symAPI["Thorough"] = func(fr *frame, args []value) value { return fr.i.run.cfg.Thorough }
 	symAPI["Symbolic"] = func(fr *frame, args []value) value { return true }
 	symAPI["MapOrder"] = func(fr *frame, args []value) value {
@@ -132,6 +149,16 @@ func init() {
 	}
 }
 
+func sortTag(s Sort) string {
+	switch s.K {
+	case KBool:
+		return "b"
+	case KFP:
+		return fmt.Sprintf("f%d", s.W)
+	}
+	return fmt.Sprintf("v%d", s.W)
+}
+
 func concreteString(v value) string {
 	if s, ok := v.(string); ok {
 		return s
@@ -142,7 +169,7 @@ func concreteString(v value) string {
 func (r *Run) freshInput(name, kind string, s Sort, n int) []*Term {
 	ts := make([]*Term, n)
 	for k := range ts {
-		ts[k] = r.w.tt.Var(s, fmt.Sprintf("in%d_%d", len(r.inputs), k))
+		ts[k] = r.w.tt.Var(s, fmt.Sprintf("in%d_%d_%s", len(r.inputs), k, sortTag(s)))
 	}
 	r.inputs = append(r.inputs, InputRec{Name: name, Kind: kind, N: n, terms: ts})
 	return ts
